@@ -3,8 +3,8 @@ CONSTANTS
   Routers = {"P", "L"}
   Ops = {"Authorize", "Login", "Callback", "CodeExchange"}
   MaxReq = 2
-  MaxCode = 1
-  MaxAT = 2
+  MaxCode = 2
+  MaxAT = 3
   MaxDev = 0
   MaxSteps = 99
   Seeded = FALSE
